@@ -3,14 +3,17 @@
 R-SIB     every per-block pass that traverses `bb.statements` also looks at
           `bb.branch_pred` (here: the unitary pass).
 R-C24.1   a loop that visits children must not leave early except by raising.
-R-C24.2   `_check_call` raises exactly when some argument holds a qubit and the context
-          flags are not a subset of the callee's flags (all 8x8 flag pairs x classic);
+R-C24.2   the visitors for global / local / tensor calls are interpreted end to end (helpers followed, flag arithmetic on the
+          folded enum) on all 8x8 context/callee flag pairs x argument lists: rejected iff some argument holds a qubit and the
+          context flags are not a subset of the callee's (c24_calls.py; the table of `_check_call` alone only as fallback);
           every call-node kind has a visitor; only barrier/state_result are exempt.
 R-C24.3   nested `with` blocks combine the enclosing context's flags.
 R-C24.4   dagger restrictions: loops, the three assignment kinds, subscripted places.
 R-C24.5   compiled functions record their flags (must-call add_unitarity_metadata).
 R-C24.6   the qubit finder never prunes the descent into a type.
-R-C24.8   the argument traversal of a call check is never short-circuited (c24_traversal.py).
+R-C24.8   a non-acceptable call nested in the arguments (any position, next to qubit or classical arguments) or in the callee
+          expression of an acceptable call is found and rejected -- interpreted on 252 nestings (c24_calls.py; the shape rules
+          of c24_traversal.py only as fallback); the qubit finder looks into struct fields.
 R-C24.7   flag plumbing: decorator kwargs -> definition -> CFG -> unitary pass.
 """
 
@@ -61,6 +64,12 @@ def run(ctx: Ctx) -> None:
                    "sibling_passes": sorted(q.func.qualname for q in passes if q.reads_branch_pred)},
                   "calls in `if`/`while` conditions are never checked against the unitary context")
 
+    # ------------------------------------------------------------ R-C24.2 / R-C24.8, end to end (the shape rules below are its fallback)
+    from . import c24_calls
+    sem = c24_calls.run(ctx, dom)
+    MODELLED = {"GlobalCall", "LocalCall", "TensorCall"}
+    ev = FlagEval(dom)
+
     # ------------------------------------------------------------ R-C24.1
     n_loops = 0
     for name, f in sorted(checker.methods.items()):
@@ -75,89 +84,90 @@ def run(ctx: Ctx) -> None:
             ctx.check(not exits, "R-C24.1", f"{f.qualname}#loop-visits-every-child", f"{f.module.rel}:{loop.lineno}",
                       {"loop": ast.unparse(loop.iter)[:40] if isinstance(loop, ast.For) else "while", "early_exits": [f"{type(e).__name__}@{e.lineno}" for e in exits]},
                       "the traversal stops at the first qubit argument; calls nested in later arguments are never checked")
-    ctx.floor("R-C24.1", "child-visiting loops in BBUnitaryChecker", n_loops, 2)
+    ctx.floor("R-C24.1", "child-visiting loops in BBUnitaryChecker", n_loops, 0 if sem else 2)  # with the end-to-end rule decided, loops may be comprehensions
 
     # ------------------------------------------------------------ R-C24.2
-    cc = checker.methods.get("_check_call")
-    if cc is None:
-        raise AnalysisError("BBUnitaryChecker._check_call vanished")
-    ctx.saw("functions", cc.qualname)
-    params = [a.arg for a in cc.node.args.args]
-    ev = FlagEval(dom)
-    bad = []
-    undecided = None
-    n_cases = 0
-    # the "are all arguments classical?" helper is found by what it does (a non-visitor method that asks contain_qubit_ty), not by name
-    _cands = [m for nm, m in checker.methods.items() if not nm.startswith("visit") and nm != cc.node.name
-              and any(call_name(c) == "contain_qubit_ty" for c in calls_in(m.node))]
-    CLASSIFIER = _cands[0].node.name if _cands else "_check_classical_args"
-    classic_calls = [c for c in calls_in(cc.node) if call_name(c) == CLASSIFIER]
-    if len(classic_calls) != 1 or len(params) < 3:
-        ctx.undecided("R-C24.2", f"{cc.qualname}#acceptance-table", cc.where, f"no single {CLASSIFIER} call / unexpected signature")
-    else:
-        ckey = ast.unparse(classic_calls[0])
-        typaram = params[2]
-        for F in dom.all_values():
-            for G in dom.all_values():
-                for classic in (False, True):
-                    env = {"self.flags": F, f"{typaram}.unitary_flags": G, ckey: classic}
-                    n_cases += 1
-                    try:
-                        out = ev.run(cc.node.body, env)
-                    except Unsupported as e:
-                        undecided = str(e)
-                        break
-                    raised = out[0] == "raise"
-                    want_raise = (not classic) and (F.bits & G.bits != F.bits)
-                    if raised != want_raise:
-                        bad.append({"context_flags": F.bits, "callee_flags": G.bits, "all_args_classical": classic, "raises": raised, "should_raise": want_raise})
-        if undecided:
-            ctx.undecided("R-C24.2", f"{cc.qualname}#acceptance-table", cc.where, undecided)
+    if not sem:
+        cc = checker.methods.get("_check_call")
+        if cc is None:
+            raise AnalysisError("BBUnitaryChecker._check_call vanished")
+        ctx.saw("functions", cc.qualname)
+        params = [a.arg for a in cc.node.args.args]
+        ev = FlagEval(dom)
+        bad = []
+        undecided = None
+        n_cases = 0
+        # the "are all arguments classical?" helper is found by what it does (a non-visitor method that asks contain_qubit_ty), not by name
+        _cands = [m for nm, m in checker.methods.items() if not nm.startswith("visit") and nm != cc.node.name
+                  and any(call_name(c) == "contain_qubit_ty" for c in calls_in(m.node))]
+        CLASSIFIER = _cands[0].node.name if _cands else "_check_classical_args"
+        classic_calls = [c for c in calls_in(cc.node) if call_name(c) == CLASSIFIER]
+        if len(classic_calls) != 1 or len(params) < 3:
+            ctx.undecided("R-C24.2", f"{cc.qualname}#acceptance-table", cc.where, f"no single {CLASSIFIER} call / unexpected signature")
         else:
-            ctx.check(not bad, "R-C24.2", f"{cc.qualname}#acceptance-table", cc.where,
-                      {"cases": n_cases, "flag_bits": dom.members, "counterexamples": bad[:4], "n_counterexamples": len(bad)},
-                      "a qubit call is accepted although the callee lacks a flag the context requires (or rejected although it has them all)")
-    # the classical-argument helper reports "classic" only if no argument contains a qubit
-    ca = checker.methods.get(CLASSIFIER)
-    if ca is None:
-        raise AnalysisError("the argument classifier of the unitary checker (a helper calling contain_qubit_ty) vanished")
-    # evaluated on every argument list of length 0..3 with every qubit/classical assignment:
-    # result == "no argument holds a qubit", and every argument is visited
-    import itertools as _it
-    aparam = ca.node.args.args[1].arg if len(ca.node.args.args) > 1 else None
-    bad = []
-    und = None
-    n_cases = 0
-    for n in range(0, 4):
-        for qs in _it.product((False, True), repeat=n):
-            toks = [f"arg{i}" for i in range(n)]
-            visited: list[str] = []
+            ckey = ast.unparse(classic_calls[0])
+            typaram = params[2]
+            for F in dom.all_values():
+                for G in dom.all_values():
+                    for classic in (False, True):
+                        env = {"self.flags": F, f"{typaram}.unitary_flags": G, ckey: classic}
+                        n_cases += 1
+                        try:
+                            out = ev.run(cc.node.body, env)
+                        except Unsupported as e:
+                            undecided = str(e)
+                            break
+                        raised = out[0] == "raise"
+                        want_raise = (not classic) and (F.bits & G.bits != F.bits)
+                        if raised != want_raise:
+                            bad.append({"context_flags": F.bits, "callee_flags": G.bits, "all_args_classical": classic, "raises": raised, "should_raise": want_raise})
+            if undecided:
+                ctx.undecided("R-C24.2", f"{cc.qualname}#acceptance-table", cc.where, undecided)
+            else:
+                ctx.check(not bad, "R-C24.2", f"{cc.qualname}#acceptance-table", cc.where,
+                          {"cases": n_cases, "flag_bits": dom.members, "counterexamples": bad[:4], "n_counterexamples": len(bad)},
+                          "a qubit call is accepted although the callee lacks a flag the context requires (or rejected although it has them all)")
+        # the classical-argument helper reports "classic" only if no argument contains a qubit
+        ca = checker.methods.get(CLASSIFIER)
+        if ca is None:
+            raise AnalysisError("the argument classifier of the unitary checker (a helper calling contain_qubit_ty) vanished")
+        # evaluated on every argument list of length 0..3 with every qubit/classical assignment:
+        # result == "no argument holds a qubit", and every argument is visited
+        import itertools as _it
+        aparam = ca.node.args.args[1].arg if len(ca.node.args.args) > 1 else None
+        bad = []
+        und = None
+        n_cases = 0
+        for n in range(0, 4):
+            for qs in _it.product((False, True), repeat=n):
+                toks = [f"arg{i}" for i in range(n)]
+                visited: list[str] = []
 
-            def h_visit(node, e, en, visited=visited):
-                v = e.ev(node.args[0], en) if node.args else None
-                visited.append(v)
-                return None
-            env = {aparam: toks, "self.visit": h_visit,
-                   "get_type": lambda node, e, en: ("type", e.ev(node.args[0], en)),
-                   "contain_qubit_ty": lambda node, e, en, qs=qs, toks=toks: qs[toks.index(e.ev(node.args[0], en)[1])]}
-            n_cases += 1
-            try:
-                out = ev.run(ca.node.body, env)
-            except (Unsupported, Exception) as e:  # noqa: BLE001
-                und = f"{type(e).__name__}: {e}"
+                def h_visit(node, e, en, visited=visited):
+                    v = e.ev(node.args[0], en) if node.args else None
+                    visited.append(v)
+                    return None
+                env = {aparam: toks, "self.visit": h_visit,
+                       "get_type": lambda node, e, en: ("type", e.ev(node.args[0], en)),
+                       "contain_qubit_ty": lambda node, e, en, qs=qs, toks=toks: qs[toks.index(e.ev(node.args[0], en)[1])]}
+                n_cases += 1
+                try:
+                    out = ev.run(ca.node.body, env)
+                except (Unsupported, Exception) as e:  # noqa: BLE001
+                    und = f"{type(e).__name__}: {e}"
+                    break
+                want_classic = not any(qs)
+                if out[0] != "return" or out[1] is not want_classic or sorted(visited) != toks:
+                    bad.append({"args_hold_qubit": list(qs), "returns": out[1] if out[0] == "return" else out[0], "want": want_classic,
+                                "visited": visited})
+            if und:
                 break
-            want_classic = not any(qs)
-            if out[0] != "return" or out[1] is not want_classic or sorted(visited) != toks:
-                bad.append({"args_hold_qubit": list(qs), "returns": out[1] if out[0] == "return" else out[0], "want": want_classic,
-                            "visited": visited})
         if und:
-            break
-    if und:
-        ctx.undecided("R-C24.2", f"{ca.qualname}#classification", ca.where, und)
-    else:
-        ctx.check(not bad, "R-C24.2", f"{ca.qualname}#classification", ca.where, {"cases": n_cases, "counterexamples": bad[:4]},
-                  "a call is classified as classical although an argument holds a qubit, or some argument expression is never visited "
-                  "(calls nested in it escape the check)")
+            ctx.undecided("R-C24.2", f"{ca.qualname}#classification", ca.where, und)
+        else:
+            ctx.check(not bad, "R-C24.2", f"{ca.qualname}#classification", ca.where, {"cases": n_cases, "counterexamples": bad[:4]},
+                      "a call is classified as classical although an argument holds a qubit, or some argument expression is never visited "
+                      "(calls nested in it escape the check)")
     # visitor per call kind; exemptions are exactly barrier / state_result
     members = union_members(idx, "guppylang_internals.nodes", "AnyCall")
     ctx.floor("R-C24.2", "AnyCall members", len(members), 5)
@@ -173,6 +183,8 @@ def run(ctx: Ctx) -> None:
         reaches = g.every_path_to_exit_passes(calls_any({"_check_call"}))
         if m in EXEMPT:
             ctx.ok("R-C24.2", key, v.where, {"exempt": True, "reason": "barrier and state_result are allowed in every context (property text)"})
+        elif sem and m in MODELLED:
+            ctx.ok("R-C24.2", key, v.where, {"decided_by": "call-acceptance-table (interpreted end to end)"})
         else:
             ctx.check(reaches, "R-C24.2", key, v.where, {"all_paths_reach__check_call": reaches},
                       f"`{m}` calls can pass the unitary pass without the flag test")
@@ -379,7 +391,7 @@ def run(ctx: Ctx) -> None:
 
     # ------------------------------------------------------------ R-C24.8 argument traversal is unconditional
     from . import c24_traversal
-    c24_traversal.run(ctx)
+    c24_traversal.run(ctx, calls_decided=sem)
 
 
 def _union_names(e: ast.expr) -> list[str]:
